@@ -217,4 +217,6 @@ THEOREMS = ['C02_atomic', 'C02_log_only_accepted', 'C02_add_only_scheduled', 'C0
             'C02_terminal_absorbing', 'inv_reachable', 'C02_terminal_absorbing_reachable', 'C02_phase_forward_reachable',
             'C02_refused_means_rule_violation', 'C02_add_before_first_height', 'wf_reachable', 'allFlags_reachable',
             'C02_card_shape', 'C02_flags_follow_card', 'C02_accepted_trial_open_cell', 'allConsec_reachable',
-            'C02_three_consecutive_failures', 'C02_trial_accepted_iff_allowed', 'C02_trial_accepted_iff', 'C02_state_gate']
+            'C02_three_consecutive_failures', 'C02_trial_accepted_iff_allowed', 'C02_trial_accepted_iff', 'C02_state_gate',
+            'limInv_reachable', 'C02_limit_is_three_or_one', 'C02_attempts_at_height', 'C02_trial_accepted_iff_started',
+            'C02_jumpoff_accepted_iff']
